@@ -276,7 +276,8 @@ def run(pid, modname, tier, seed, env, scratch, nshards, t0):
         else:
             new.append((case, v))
     replay_paths = []
-    (VERIF / "replay").mkdir(exist_ok=True)
+    rdir = Path(os.environ.get("VERIF_REPLAY_DIR") or VERIF / "replay")
+    rdir.mkdir(exist_ok=True)
     seen = set()
     for case, v in new:
         blob = json.dumps({"case": case, "what": v.get("what")}, sort_keys=True, default=jdefault)
@@ -284,9 +285,9 @@ def run(pid, modname, tier, seed, env, scratch, nshards, t0):
         if hsh in seen:
             continue
         seen.add(hsh)
-        if len(replay_paths) >= 25:
+        if len(replay_paths) >= 8:
             continue
-        path = VERIF / "replay" / f"{pid}-{hsh}.json"
+        path = rdir / f"{pid}-{hsh}.json"
         path.write_text(json.dumps({"property": pid, "tier": tier, "seed": seed, "src": boot.src_dir(),
                                     "case": case, "violation": v}, indent=1, default=jdefault))
         replay_paths.append(path)
@@ -319,8 +320,9 @@ def run(pid, modname, tier, seed, env, scratch, nshards, t0):
         "wall_s": round(time.time() - t0, 2),
         "violations": len(new),
     }
-    (VERIF / "evidence").mkdir(exist_ok=True)
-    (VERIF / "evidence" / f"{pid}.json").write_text(json.dumps(ev, indent=1, default=jdefault) + "\n")
+    edir = Path(os.environ.get("VERIF_EVIDENCE_DIR") or VERIF / "evidence")
+    edir.mkdir(exist_ok=True)
+    (edir / f"{pid}.json").write_text(json.dumps(ev, indent=1, default=jdefault) + "\n")
 
     print(f"[{pid}] tier={tier} seed={seed} cases={len(cases)} evaluations={evals} "
           f"distinct_nontrivial={len(sigs)} wall={ev['wall_s']}s")
